@@ -12,7 +12,7 @@ class Engine(DbEngine):
     thorough = (2000, 70)
     rule = "histories with removed/replaced/deleted/ephemeral/failed-store leftovers, address markers with empty/long(183..476)/binary d values, extra tables with rows; reopen and rebuild inserted at random positions (several per history). oracle: the full observation dump (every id, address, counter, extra table, query battery) is identical before and after; after rebuild the event space equals the retrievable events' aligned sizes exactly and the backup files exist. non-trivial = history with >= 2 stores"
     trusted = DbEngine.db_trusted
-    assumptions = ["rebuild's chown branch is not exercised"]
+    assumptions = ["rebuild's chown branch (root rebuilding files of another owner) is not exercised; the refusal branch (a caller who is neither root nor the owner) is: class refused-rebuild"]
 
     def generate(self, rng, tier):
         import random
@@ -41,4 +41,50 @@ class Engine(DbEngine):
                 g.ops.append((sub.choice(["reopen", "rebuild", "rebuild"]),))
             g.g_store_new()
             out.append(("exact-fill", g.render()))
+        # a rebuild the library REFUSES (the caller is neither root nor the owner of the files, but may write to the directory):
+        # whatever it did before refusing, the store reopened afterwards must observe exactly as before. Implementation only.
+        import common as C
+        for i in range(8 if tier == "quick" else 120):
+            sub = random.Random(rng.getrandbits(64))
+            g = HistGen(sub, {"new": 4, "addr": 2, "delete": 2, "remove": 1, "xput": 1}, sub.choice([3, 6, 12])).run()
+            obs = "obs %s %s" % (C.tl(C.tb(i_) for i_ in g.ids), C.tl("%s %s %s" % (C.tn(k_), C.tb(a_), C.tb(d_)) for k_, a_, d_ in g.addrs))
+            ops = [g.render_op(op) for op in g.ops]
+            if sub.random() < 0.4:
+                ops.append("rebuild")          # a previous backup exists
+            tail = [obs, "rebuildas " + C.tn(sub.choice([65534, 1000, 12345])), obs]
+            e = g.new_event(kind=1, pk=sub.choice(AUTHORS), tags=[])
+            tail += ["store " + C.t_event(e), obs]
+            line = "dbhist " + C.tl(C.tb(n_) for n_ in g.names) + "".join(" ; " + x for x in ops + tail)
+            out.append(("refused-rebuild", line))
         return out
+
+    def skip_model(self, gcls):
+        return gcls == "refused-rebuild"
+
+    def judge(self, gcls, line, model_out, impl_outs):
+        if gcls != "refused-rebuild":
+            return super().judge(gcls, line, model_out, impl_outs)
+        from engine import Verdict
+        from dbjudge import parse_obs
+        o = impl_outs[self.profiles[0]]
+        if not o.startswith("dbhist "):
+            return Verdict(oracle_ok=False, cls="harness-died", detail=o[:100], outcome="died")
+        segs = o[len("dbhist "):].split(" | ")
+        kinds = [x.split(" ", 1)[0] for x in line.split(" ; ")[1:]]
+        if len(segs) != len(kinds):
+            return Verdict(oracle_ok=False, cls="store-died", detail="history stopped after op %d: %s" % (len(segs), segs[-1][:80]), outcome="died")
+        k = kinds.index("rebuildas")
+        res = segs[k]
+        if "panic" in segs[k:]:
+            return Verdict(oracle_ok=False, cls="panic", detail="panicked at or after the refused rebuild", outcome="panic")
+        if "reopen-err" in res:
+            return Verdict(oracle_ok=False, cls="refused-rebuild-lost-the-store", detail="after the refused rebuild the directory cannot be opened: %s" % res, outcome="reopen")
+        before, after = parse_obs(segs[k - 1]), parse_obs(segs[k + 1])
+        keys = ["ids.has", "ids.del", "ids.hash", "addrs.asof", "addrs.find", "stats.main", "stats.tags", "stats.del", "extra"]
+        if res.startswith("refused"):
+            keys += ["offs", "stats.bytes"]
+        for ck in keys:
+            if before.get(ck) != after.get(ck):
+                return Verdict(oracle_ok=False, cls="refused-rebuild-changed-state",
+                               detail="%s changed across a rebuild that answered %s (before %s, after %s)" % (ck, res, str(before.get(ck))[:60], str(after.get(ck))[:60]), outcome="changed")
+        return Verdict(outcome="refused-rebuild/%s" % res.split(":")[0], nontrivial=True)
